@@ -131,7 +131,8 @@ def tlc(module, cfg=None, workers=8, timeout=900, env_extra=None, simulate=None,
     """Run TLC on spec/<module>.tla with spec/<cfg>. Returns TlcResult."""
     cwd = cwd or SPEC
     cfg = cfg or (module + ".cfg")
-    meta = os.path.join(WORK, "tlc-meta", "%s-%d-%d" % (module, os.getpid(), int(time.time() * 1000) % 100000))
+    import uuid
+    meta = os.path.join(WORK, "tlc-meta", "%s-%d-%s" % (module, os.getpid(), uuid.uuid4().hex[:12]))
     os.makedirs(meta, exist_ok=True)
     jopts = ["-XX:+UseParallelGC", "-Xmx" + xmx, "-Xss1g"]
     if dfs:
